@@ -54,7 +54,7 @@ def main():
 def run_check(prop, tier, seed, workdir, args, t0):
     mod = importlib.import_module("props." + prop)
     plan = mod.plan(tier)
-    vlib.build_harness()
+    vlib.build_harness([f["fam"] for f in plan["families"]])
 
     if args.replay:
         doc = json.load(open(args.replay))
